@@ -18,6 +18,11 @@ func init() {
 		return emitCodeArea(repo, "CodeKv", []codeTarget{
 			{dir: "pisces", name: "keyHash", cfg: transCfg{externs: hash}},
 			{dir: "pisces", name: "kvMapKey"},
+			{dir: "pisces", name: "partialKeys", cfg: transCfg{checked: true, params: []pspec{
+				{src: "p.Offset", name: "p_Offset", typ: "uint64"},
+				{src: "p.N", name: "p_N", typ: "uint64"},
+				{src: "keys", name: "keys", typ: "[]string"},
+			}}},
 		})
 	})
 	register("CodeSni", func(repo string) (string, error) {
@@ -28,8 +33,35 @@ func init() {
 		})
 	})
 	register("CodeCred", func(repo string) (string, error) {
+		hash := map[string]extern{
+			"s.hash": {name: "signer_hash", args: []string{"[]byte"}, res: []string{"[]byte"}},
+		}
+		now := pspec{src: "now(s.TimeFunc)", name: "tnow", typ: "time.Time"}
 		return emitCodeArea(repo, "CodeCred", []codeTarget{
 			{dir: "signer", name: "inWindow"},
+			{dir: "signer", name: "refreshTTL"},
+			{dir: "signer", recv: "Sessions", name: "NeedRefresh", cfg: transCfg{params: []pspec{
+				{src: "s.refreshTTL", name: "s_refreshTTL", typ: "time.Duration"},
+				{src: "ttl", name: "ttl", typ: "time.Duration"}}}},
+			{dir: "signer", recv: "Signer", name: "Check", cfg: transCfg{externs: hash, params: []pspec{
+				{src: "bs", name: "bs", typ: "[]byte"}}}},
+			{dir: "signer", recv: "Signer", name: "CheckHex", cfg: transCfg{
+				calls:  map[string]string{"s.Check": "signer|Signer|Check"},
+				params: []pspec{{src: "str", name: "str", typ: "string"}}}},
+			// the lifetime actually granted: the statements of Sessions.New up to `expires := ...`
+			{dir: "signer", recv: "Sessions", name: "New", cfg: transCfg{
+				coqName: "gen_signer_Sessions_New_expires",
+				skip:    []string{"buf := new(bytes.Buffer)"}, sliceVar: "expires", sliceRes: 1,
+				results: []string{"time.Time"},
+				params: []pspec{{src: "s.ttl", name: "s_ttl", typ: "time.Duration"}, now,
+					{src: "ttl", name: "ttl", typ: "time.Duration"}}}},
+			{dir: "signer", recv: "Sessions", name: "Check", cfg: transCfg{
+				calls:  map[string]string{"s.s.CheckHex": "signer|Signer|CheckHex"},
+				params: []pspec{now, {src: "session", name: "session", typ: "string"}}}},
+			{dir: "signer", recv: "TimeSigner", name: "Check", cfg: transCfg{
+				calls: map[string]string{"s.s.CheckHex": "signer|Signer|CheckHex"},
+				params: []pspec{{src: "s.window", name: "s_window", typ: "time.Duration"}, now,
+					{src: "token", name: "token", typ: "string"}}}},
 		})
 	})
 }
